@@ -9,7 +9,9 @@ import (
 	"path/filepath"
 	"strings"
 	"sync/atomic"
+	"syscall"
 	"time"
+	"unsafe"
 
 	"verif.local/h/core"
 	"verif.local/h/impl"
@@ -63,6 +65,7 @@ var cmdStdin = []string{
 	`{"a":`,
 	``,
 	`"scalar"`,
+	"{\"a\":1}\n{\"a\":2}",
 	// a 100 KB document (pipe buffers, bufio sizes)
 	`{"a":[` + strings.Repeat(`{"k":"v<%d"},`, 6000) + `0],"k":[1]}`,
 }
@@ -73,6 +76,7 @@ type CmdCase struct {
 	Texts  []string `json:"patch_file_contents"`
 	Long   bool     `json:"long_flag,omitempty"`
 	Stdin  string   `json:"stdin"`
+	Splits []int    `json:"stdin_delivered_in_pieces_cut_at,omitempty"` // each piece is written only after the command has consumed the one before
 }
 
 type cmdObs struct {
@@ -81,7 +85,32 @@ type cmdObs struct {
 	Err            string
 }
 
-func runCmd(bin, dir string, files []string, long bool, stdin string) cmdObs {
+// feedPieces writes stdin to w cut at the given offsets; a piece is written only once the reader has
+// drained the pipe (FIONREAD on the write end = 0) and a short pause has passed, so that the command's
+// read returns short - the environment answer a pipe gives when the producer is slower than the consumer.
+func feedPieces(w *os.File, stdin string, cuts []int) {
+	defer w.Close()
+	prev := 0
+	for _, c := range append(append([]int(nil), cuts...), len(stdin)) {
+		if c <= prev || c > len(stdin) {
+			continue
+		}
+		if _, err := w.WriteString(stdin[prev:c]); err != nil {
+			return
+		}
+		prev = c
+		for i := 0; i < 5000; i++ { // horizon 5 s: a command that stops reading is judged on its outcome
+			var n int32
+			if _, _, e := syscall.Syscall(syscall.SYS_IOCTL, w.Fd(), syscall.TIOCINQ, uintptr(unsafe.Pointer(&n))); e != 0 || n == 0 {
+				break
+			}
+			time.Sleep(time.Millisecond)
+		}
+		time.Sleep(15 * time.Millisecond)
+	}
+}
+
+func runCmd(bin, dir string, files []string, long bool, stdin string, cuts ...int) cmdObs {
 	var args []string
 	for _, f := range files {
 		if long {
@@ -92,12 +121,29 @@ func runCmd(bin, dir string, files []string, long bool, stdin string) cmdObs {
 	}
 	c := exec.Command(bin, args...)
 	c.Dir = dir
-	c.Stdin = strings.NewReader(stdin)
+	var pw *os.File
+	if len(cuts) > 0 {
+		pr, w, err := os.Pipe()
+		if err != nil {
+			return cmdObs{Err: err.Error(), Exit: -1}
+		}
+		c.Stdin, pw = pr, w
+		defer pr.Close()
+	} else {
+		c.Stdin = strings.NewReader(stdin)
+	}
 	var so, se bytes.Buffer
 	c.Stdout, c.Stderr = &so, &se
 	done := make(chan error, 1)
 	if err := c.Start(); err != nil {
+		if pw != nil {
+			pw.Close()
+		}
 		return cmdObs{Err: err.Error(), Exit: -1}
+	}
+	if pw != nil {
+		c.Stdin.(*os.File).Close()
+		go feedPieces(pw, stdin, cuts)
 	}
 	go func() { done <- c.Wait() }()
 	select {
@@ -300,7 +346,7 @@ func runCmdx(ctx *core.Ctx, tier string) {
 		maxLen = 3
 	}
 	ctx.Rep.Rule = fmt.Sprintf("every list of 0..%d -p arguments (order and repetition included) over %d patch files {two non-commuting valid patches, one applicable only after the first, a move, a failing test, malformed JSON (truncated; a complete patch followed by garbage; two arrays), unknown op, missing file, directory, empty file, empty patch, root-replacing patch} x %d stdin documents {object, object with whitespace, array, malformed, empty, scalar}, "+
-		"each run as a real process of the binary built from the working tree (v5 cmd and legacy cmd; lists of length <= 1 also with --patch-file=). Oracle: stdout must equal byte for byte the fold of the library's DecodePatch+Apply over the files in command-line order with exit 0 and the value must equal the reference evaluator's fold; "+
+		"(+ stdin delivered in pieces cut at 1, n/2, n-1, around 4096, 8192, 32768, 65536: each piece is written only after the command has drained the pipe, so its reads return short), each run as a real process of the binary built from the working tree (v5 cmd and legacy cmd; lists of length <= 1 also with --patch-file=). Oracle: stdout must equal byte for byte the fold of the library's DecodePatch+Apply over the files in command-line order with exit 0 and the value must equal the reference evaluator's fold; "+
 		"if any file is unreadable/undecodable or any patch fails to apply: empty stdout, non-empty stderr, exit != 0. states = distinct (binary, stdin, expected outcome); non-trivial = runs with >= 2 patch files", len(cmdMenu), maxLen, len(cmdStdin))
 	ctx.Rep.Assume = append(ctx.Rep.Assume, "the expected bytes come from the library linked into the harness (same working tree as the binary); the library itself is judged by C01/C05/C15/C18",
 		"with zero patch files the command echoes stdin unchanged (that is the fold over an empty list), also when stdin is not JSON")
@@ -316,6 +362,7 @@ func runCmdx(ctx *core.Ctx, tier string) {
 		files []int
 		long  bool
 		stdin int
+		cuts  []int
 	}
 	var lists [][]int
 	var rec func(cur []int)
@@ -356,9 +403,43 @@ func runCmdx(ctx *core.Ctx, tier string) {
 		// which files does this library decode?
 		for _, l := range lists {
 			for s := range cmdStdin {
-				units = append(units, unit{b, l, false, s})
+				units = append(units, unit{b, l, false, s, nil})
 				if len(l) == 1 {
-					units = append(units, unit{b, l, true, s})
+					units = append(units, unit{b, l, true, s, nil})
+				}
+			}
+		}
+		// positions: a failing / undecodable / missing file as the k-th of k -p options, k around the widths
+		// of a byte and of two; and the same lists without the failing file
+		for _, k := range []int{255, 256, 257, 512, 513} {
+			var l []int
+			for i := 0; i < k-1; i++ {
+				l = append(l, idxOf([]string{"ok1.json", "after1.json", "ok2.json"}[i%3]))
+			}
+			units = append(units, unit{b, l, false, 0, nil})
+			for _, bad := range []string{"failtest.json", "malformed.json", "missing.json"} {
+				units = append(units, unit{b, append(append([]int(nil), l...), idxOf(bad)), false, 0, nil})
+			}
+		}
+		// delivery: stdin arriving in pieces (every read of the command returns short), for the echo, one
+		// patch and a failing patch
+		for s, text := range cmdStdin {
+			var cutSets [][]int
+			n := len(text)
+			switch {
+			case n < 2:
+				continue
+			case n < 200:
+				cutSets = [][]int{{1}, {n / 2}, {n - 1}, {1, n - 1}}
+				if strings.Contains(text, "\n{") {
+					cutSets = append(cutSets, []int{strings.Index(text, "\n{")}, []int{strings.Index(text, "\n{") + 1})
+				}
+			default:
+				cutSets = [][]int{{512}, {4095}, {4096}, {4097}, {8192}, {32768}, {65536}, {4096, 8192, 12288}, {n - 1}, {100, 5000, 70000}}
+			}
+			for _, cuts := range cutSets {
+				for _, l := range [][]int{nil, {idxOf("ok1.json")}, {idxOf("failtest.json")}, {idxOf("ok1.json"), idxOf("after1.json")}} {
+					units = append(units, unit{b, l, false, s, cuts})
 				}
 			}
 		}
@@ -398,10 +479,10 @@ func runCmdx(ctx *core.Ctx, tier string) {
 			names = append(names, cmdMenu[fi].Name)
 			texts = append(texts, cmdMenu[fi].Content)
 		}
-		kase := CmdCase{Binary: u.bin, Files: names, Texts: texts, Long: u.long, Stdin: cmdStdin[u.stdin]}
+		kase := CmdCase{Binary: u.bin, Files: names, Texts: texts, Long: u.long, Stdin: cmdStdin[u.stdin], Splits: u.cuts}
 		w.Tick(func() string { b, _ := json.Marshal(kase); return string(b) })
 		x := cmdExpected(u.bin == "v4", files, cmdStdin[u.stdin])
-		o := runCmd(env.bins[u.bin], env.dir, names, u.long, cmdStdin[u.stdin])
+		o := runCmd(env.bins[u.bin], env.dir, names, u.long, cmdStdin[u.stdin], u.cuts...)
 		atomic.AddInt64(runs, 1)
 		atomic.AddInt64(&nExec, 1)
 		if len(u.files) >= 2 {
@@ -512,6 +593,6 @@ func cmdReplay(ctx *core.Ctx, raw json.RawMessage) {
 		}
 	}
 	x := cmdExpected(k.Binary == "v4", files, k.Stdin)
-	o := runCmd(env.bins[k.Binary], env.dir, k.Files, k.Long, k.Stdin)
+	o := runCmd(env.bins[k.Binary], env.dir, k.Files, k.Long, k.Stdin, k.Splits...)
 	judgeCmd(ctx, k, x, o)
 }
